@@ -410,3 +410,107 @@ Proof.
     intros E. specialize (H3 E). destruct (B_kind s Hs) as [vt K]. destruct (Hk vt K) as [Hsb Hall].
     destruct (in_labels_vinfo s _ H1) as [j [Hj Ej]]. rewrite <- Ej, (vt_of_in s j Hnd Hj), (Hall j Hj), Hsb in H3. discriminate.
 Qed.
+
+(* ---------- contraction through a handle whose vartype coincides with the base's ---------- *)
+(* (a .spin/.binary handle kept across change_vartype: the @view_method wrappers delegate) *)
+Definition kp (f : state -> res) : Prop := forall a, st_kind (fst (f a)) = st_kind a.
+
+Lemma kp_bind r g s : st_kind (fst r) = st_kind s -> kp g -> st_kind (fst (r >>= g)) = st_kind s.
+Proof. intros H Hg. unfold bind. destruct (snd r); [rewrite Hg; exact H|exact H]. Qed.
+
+Lemma kp_seqm {A : Type} (f : A -> state -> res) l : (forall x, kp (f x)) -> kp (seqm f l).
+Proof.
+  intros Hf. induction l as [|x l IH]; intros a; [reflexivity|]. cbn [seqm]. apply kp_bind; [apply Hf|exact IH].
+Qed.
+
+Lemma kp_d_add_linear v b : kp (d_add_linear v b).
+Proof. intros a. apply kind_d_add_linear. Qed.
+
+Lemma kp_d_set_offset b : kp (d_set_offset b).
+Proof. intros a. reflexivity. Qed.
+
+Lemma kp_d_remove_interaction u v : kp (d_remove_interaction u v).
+Proof. intros a. unfold d_remove_interaction. destruct (_ && _ && _); reflexivity. Qed.
+
+Lemma kp_resolve v : kp (resolve v).
+Proof. intros a. unfold resolve. destruct (st_kind a) eqn:K; [cbn [ok fst]; rewrite kind_ensure; exact K|destruct (has_var a v); exact K]. Qed.
+
+Lemma kp_d_add_quadratic u v b : kp (d_add_quadratic u v b).
+Proof.
+  intros a. unfold d_add_quadratic. destruct (quad_guard u v a); [reflexivity|].
+  apply kp_bind; [apply kp_bind; [apply kp_resolve|apply kp_resolve]|]. intros a'. reflexivity.
+Qed.
+
+Lemma bind_cong (P : state -> Prop) (r r' : res) g g' :
+  r = r' -> (snd r' = Ok -> P (fst r')) -> (forall a, P a -> g a = g' a) -> r >>= g = r' >>= g'.
+Proof. intros -> HP Hg. unfold bind. destruct (snd r') eqn:E; [apply Hg, HP; reflexivity|reflexivity]. Qed.
+
+Lemma seqm_cong {A : Type} (P : state -> Prop) (f f' : A -> state -> res) l a :
+  (forall x b, P b -> f x b = f' x b) -> (forall x b, P b -> snd (f' x b) = Ok -> P (fst (f' x b))) -> P a ->
+  seqm f l a = seqm f' l a.
+Proof.
+  intros Hf Hp. revert a. induction l as [|x l IH]; intros a Pa; [reflexivity|].
+  cbn [seqm]. rewrite (Hf x a Pa). unfold bind. destruct (snd (f' x a)) eqn:E; [|reflexivity].
+  apply IH. apply Hp; assumption.
+Qed.
+
+Lemma vdir_kind h s a : st_kind a = st_kind s -> vdir_of h a = vdir_of h s.
+Proof. intros K. unfold vdir_of, bvt. rewrite K. reflexivity. Qed.
+
+Lemma hvt_same h s : vdir_of h s = None -> hvt h s = bvt s.
+Proof.
+  destruct h as [|wv]; [reflexivity|]. cbn [vdir_of hvt]. destruct (vartype_eqb wv (bvt s)) eqn:E; [|discriminate].
+  intros _. destruct wv, (bvt s); try discriminate; reflexivity.
+Qed.
+
+Theorem contract_same_vartype_handle h u v s :
+  vdir_of h s = None -> m_contract h u v s = m_contract Direct u v s.
+Proof.
+  intros D. unfold m_contract. destruct (negb (has_var s u && has_var s v) || (u =? v)%nat); [reflexivity|]. cbv zeta.
+  assert (Dk : forall a, st_kind a = st_kind s -> vdir_of h a = None) by (intros a K; rewrite (vdir_kind h s a K); exact D).
+  assert (GQ : h_get_quadratic h u v s = h_get_quadratic Direct u v s) by (unfold h_get_quadratic, vscale; rewrite D; reflexivity).
+  assert (GL : h_get_linear h v s = h_get_linear Direct v s) by (unfold h_get_linear; rewrite D; reflexivity).
+  rewrite GQ, GL.
+  set (K := fun a => st_kind a = st_kind s).
+  assert (S1 : kp (fun a => match hvt Direct a with
+                             | BINARY => h_add_linear Direct u (opt0 (h_get_quadratic Direct u v s)) a
+                             | _ => h_add_offset Direct (opt0 (h_get_quadratic Direct u v s)) a
+                             end)).
+  { intros a. cbn [hvt]. unfold h_add_linear, h_add_offset, h_set_offset; cbn [vdir_of]. destruct (bvt a); try reflexivity; apply kind_d_add_linear. }
+  assert (S2 : kp (fun a => if match h_get_quadratic Direct u v s with Some _ => true | None => false end
+                            then h_remove_interaction Direct u v a else ok a)).
+  { intros a. destruct (match h_get_quadratic Direct u v s with Some _ => true | None => false end); [|reflexivity].
+    unfold h_remove_interaction; cbn [vdir_of]. apply kp_d_remove_interaction. }
+  assert (S3 : kp (fun a => seqm (fun t => h_add_quadratic Direct u (fst t) (snd t)) (h_nbh Direct v a) a)).
+  { intros a. apply kp_seqm. intros t. unfold h_add_quadratic; cbn [vdir_of]. apply kp_d_add_quadratic. }
+  assert (S0 : st_kind (fst (h_add_linear Direct u (opt0 (h_get_linear Direct v s)) s)) = st_kind s)
+    by (unfold h_add_linear; cbn [vdir_of]; apply kind_d_add_linear).
+  apply (bind_cong K).
+  - apply (bind_cong K).
+    + apply (bind_cong K).
+      * apply (bind_cong K).
+        -- unfold h_add_linear. rewrite D. reflexivity.
+        -- intros _. exact S0.
+        -- intros a Ka. rewrite (hvt_same h a (Dk a Ka)). cbn [hvt].
+           unfold h_add_linear, h_add_offset, h_set_offset, h_get_offset. rewrite (Dk a Ka). reflexivity.
+      * intros _. unfold K. apply kp_bind; [exact S0|exact S1].
+      * intros a Ka. unfold h_remove_interaction. rewrite (Dk a Ka). reflexivity.
+    + intros _. unfold K. apply kp_bind; [apply kp_bind; [exact S0|exact S1]|exact S2].
+    + intros a Ka. replace (h_nbh h v a) with (h_nbh Direct v a) by (unfold h_nbh, vscale; rewrite (Dk a Ka); reflexivity).
+      apply (seqm_cong K); [| |exact Ka].
+      * intros t b Kb. unfold h_add_quadratic. rewrite (Dk b Kb). reflexivity.
+      * intros t b Kb _. unfold K in *. unfold h_add_quadratic; cbn [vdir_of]. rewrite kp_d_add_quadratic. exact Kb.
+  - intros _. unfold K. apply kp_bind; [apply kp_bind; [apply kp_bind; [exact S0|exact S1]|exact S2]|exact S3].
+  - intros a Ka. unfold h_remove_variable. rewrite (Dk a Ka). reflexivity.
+Qed.
+
+Theorem contract_energy_same_vartype_handle h u v s y :
+  vdir_of h s = None ->
+  B s -> wf s -> has_var s u = true -> has_var s v = true -> u <> v ->
+  (match bvt s with BINARY => y u * y u = y u | _ => y u * y u = 1 end) ->
+  snd (step s (h, OContract u v)) = Ok /\
+  energy (st_poly (fst (step s (h, OContract u v)))) y = energy (st_poly s) (upd y v (y u)).
+Proof.
+  intros D Hs Hw Hu Hv Hne Hr. pose proof (contract_energy u v s y Hs Hw Hu Hv Hne Hr) as H.
+  cbn [step] in *. rewrite Hs in *. rewrite (contract_same_vartype_handle h u v s D). exact H.
+Qed.
